@@ -51,10 +51,12 @@ HI == "#"
 NB == "_"
 FS == "^"
 PAD == "@"
+UD == "="      \* a Unicode decimal digit arriving as valid UTF-8 (U+0663, U+FF13 ...): not ASCII, str.isdigit() and int() accept it
+US == "~"      \* the ASCII underscore itself ("_" is taken by NB): an ordinary character; int("1_0") accepts it, no documented number does
 \* Python 3 str.strip() with no argument removes code points with str.isspace(): TAB LF VT FF CR
 \* FS GS RS US SP, U+0085, U+00A0, U+1680, U+2000-200A, U+2028/9, U+202F, U+205F, U+3000.
 WireWS == {" ", "\t", "\n", "\r", FS, NB}
-NonAscii == {HI, NB}
+NonAscii == {HI, NB, UD}
 Chr(s, i) == SubSeq(s, i, i)
 After(s, i) == SubSeq(s, i + 1, Len(s))                  \* text after position i
 PyPrefix(s, n) == SubSeq(s, 1, IF n < Len(s) THEN n ELSE Len(s))   \* Python s[0:n] (never raises)
@@ -111,14 +113,20 @@ Secure(p) == p \in SecureProtocols
 (* ------------------------------------------------------------------------------------ *)
 (* Headers following an HTTP request line                                                *)
 (* ------------------------------------------------------------------------------------ *)
-HdrKinds == {"AW", "AG", "AO", "XP", "XU", "NC", "BL"}
+\* White space in the header block is read as in the request line: ASCII blanks, the FS controls and Unicode blanks that arrive
+\* as VALID UTF-8 (class NB) - they end the block as a blank line, are stripped around a line and separate Accept items.
+\* Bytes >= 0x80 that are NOT valid UTF-8 (class HI: a lone 0x85, 0xA0, 0xFF ...) are ordinary non-blank characters:
+\*   "HB" a line consisting only of such bytes: not blank, no colon - ignored, the block goes on
+\*   "HX" a line that looks like an Accept / WAP profile header but whose NAME carries such a byte: some other header - ignored
+\* and such a byte directly before the WML type does not make it a list item of its own (a spelling of "AO").
+HdrKinds == {"AW", "AG", "AO", "XP", "XU", "NC", "HB", "HX", "BL"}
 NoHdr == [accept |-> "none", xwap |-> FALSE, xup |-> FALSE]      \* the httpheaders dict, abstracted
 \* what a header line MEANS (documentation level): AG lists WML just as AW does
 PutHdr(d, k) == CASE k \in {"AW", "AG"} -> [d EXCEPT !.accept = "wml"]   \* dict assignment: the last Accept wins
                   [] k = "AO" -> [d EXCEPT !.accept = "other"]
                   [] k = "XP" -> [d EXCEPT !.xwap = TRUE]
                   [] k = "XU" -> [d EXCEPT !.xup = TRUE]
-                  [] OTHER    -> d                                \* "NC": no colon, ignored
+                  [] OTHER    -> d                                \* "NC", "HB", "HX": not a recognised header, ignored
 \* what the code makes of it (wap.py:45 re.search("[, ]text/vnd.wap.wml", value), value = everything after the
 \* colon, unstripped).  NAMED DEVIATION GluedAcceptUnrecognised: without a blank after the colon a WML type at the
 \* start of the value has nothing in front of it, so the Accept header counts as one that does not list WML.
@@ -168,6 +176,7 @@ ShapeSpartan(line) ==
     /\ SpSecond(s) # SpFirst(s) + 1             \* no empty middle part (the ends are non-empty after strip)
     /\ IsDigitString(After(s, LastPos(s, " ")))
     /\ ~TX!StartsWith(s, "/")                    \* a host name never starts with a slash (a Gopher selector does)
+    /\ ~TX!Contains(line, "\t")                  \* nor does a Spartan request line hold a TAB (a Gopher search does)
 \* doc/standards/Gopher+.txt 2.3/2.5/2.6 and appendix: "selector TAB +[representation]", "selector TAB !",
 \* "selector TAB $", and for searches "selector TAB words TAB +..."; gopherp.py docstring: "more than one
 \* parameter in the request list; the [last] parameter is ! or starts with + or $" (at most three parameters).
@@ -247,7 +256,8 @@ ClaimsSpartan(px) ==
     IF px.tls THEN "no"
     ELSE IF ~px.ascii THEN "no"                                     \* request.encode("ascii") raises
     ELSE YesNo(Len(px.parts) = 3 /\ (\A i \in 1..3 : px.parts[i] # "") /\ IsDigitString(px.parts[3])
-               /\ ~TX!StartsWith(px.parts[1], "/"))                \* not parts[0].startswith("/")  [c3ed498]
+               /\ ~TX!StartsWith(px.parts[1], "/")                 \* not parts[0].startswith("/")  [c3ed498]
+               /\ ~TX!Contains(px.line, "\t"))                    \* "\t" not in self.request  [7876341]
 \* gopherp.py:15-36.  NAMED DEVIATION EmptyPlusFieldRaises (switched OFF since /repo commit 6a019e8): the pinned
 \* snapshot evaluated gopherpstring[0] on an empty string (request "sel<TAB><CR><LF>") and raised IndexError; the
 \* repaired code (startswith) answers "no".  The switch is kept so that the defect can be modelled again if it is
